@@ -103,7 +103,7 @@ REQ_TEMPLATES = [
     "/c/{type}", "/d/{id}.json", "/e/{a}:{b}", "/f/x{p}y", "/caf\u00e9/{id}", "/g h/{id}", "/i/y-{match}", "/j/{Id}/k/{ID2}", "/l.m/n_o~p",
     "/q/a%b", "/r/{self}", "/s/t-u/{X-Y}",
 ]
-REQ_ENUMS = [["DESC", "asc"], ["Premium", "basic"], ["A", "a", "b"], ["low", "mid", "high"], ["UP", "Up", "up"], ["one"], ["x-1", "X_2"], ["Desc", "DESC", "other"]]
+REQ_ENUMS = [["{first} {last}", "plain", "{last}-{first}"], ["{email}", "id", "a{b", "c}d"], ["DESC", "asc"], ["Premium", "basic"], ["A", "a", "b"], ["low", "mid", "high"], ["UP", "Up", "up"], ["one"], ["x-1", "X_2"], ["Desc", "DESC", "other"]]
 REQ_QNAMES = ["q", "limit", "sort-Order", "page size", "type", "Filter", "a.b", "tags", "ids"]
 REQ_HNAMES = ["X-Trace", "X-Request-Id", "x-sort", "X-API-Version", "Accept-Language", "X_Only", "If-Match"]
 REQ_BODIES = [["application/json", "ref:Pet"], ["application/x-www-form-urlencoded", "ref:Pet"], ["text/plain", "string"], ["application/octet-stream", "string"],
